@@ -232,6 +232,8 @@ def gen_close_pile(rng, opts=None):
                                      eff=rng.choice(['CLOSE', 'CLOSE_TODAY']), style=far))
             if rng.random() < 0.5:
                 acts.append(dict(op=op_close, id=fid, amt=rng.randint(1, 8), style='mkt', ct=rng.random() < 0.4))
+            if o.get('order_calls') and rng.random() < 0.7:
+                acts = acts[:1] + [dict(op=rng.choice(['order', 'order_to']), id=fid, amt=rng.randint(-12, 12), style='mkt')]
             # resting orders placed in the auction are matched (and rest) during the day; the bar then fills marketable ones
             script['%d|open_auction|0' % d] = acts
             if rng.random() < 0.6:
@@ -248,6 +250,41 @@ def gen_close_pile(rng, opts=None):
             for _ in range(rng.randint(1, 3)):
                 acts.append(dict(op='order_shares', id=sid, amt=-rng.choice([100, 200, 300, 500, 900]), style=rng.choice([['lim', 1.08], 'mkt'])))
             script['%d|%s|0' % (d, rng.choice(['open_auction', 'handle_bar']))] = acts
+    scn['script'] = script
+    scn['start_i'], scn['end_i'] = 1, nd - 2
+    return scn
+
+
+def gen_odd_lot(rng, opts=None):
+    """An odd-lot stock holding (created by a split), a same-day T+1 purchase, then value / target sized sells."""
+    wopts = dict(ndays=rng.randint(9, 12), actions=False, futures=False, expiry=False)
+    scn = gen_trading(rng, dict(freq='1d', stocks=1, futures=False, flows=False, world=wopts, actions_per_phase=(0,), p_cancel=0.0))
+    sid = W.STOCKS[0]
+    scn['meta']['active_stocks'] = [sid]
+    w = W.gen_world(random.Random(scn['world_seed']), scn['world_opts'])
+    nd = len(w.days)
+    split_i = rng.randint(3, 5)
+    ratio = rng.choice([1.25, 1.5])
+    scn['world_overrides'] = dict(splits={sid: [[W.dint(w.days[split_i]), ratio]]}, dividends={sid: []})
+    sim = scn['cfg']['mod']['sys_simulation']
+    sim.update(volume_limit=False, price_limit=False, inactive_limit=False, slippage=0, matching_type='current_bar')
+    scn['cfg']['base']['accounts'] = {'stock': rng.choice([100000, 1000000])}
+    scn['cfg']['mod']['sys_accounts'].update(stock_t1=True, auto_switch_order_value=rng.random() < 0.3)
+    script = {'1|handle_bar|0': [dict(op='order_shares', id=sid, amt=rng.choice([200, 600, 1000]), style='mkt')]}
+    for d in range(split_i + 1, nd - 1):
+        acts = []
+        if rng.random() < 0.6:
+            acts.append(dict(op='order_shares', id=sid, amt=rng.choice([100, 300]), style='mkt'))
+        r = rng.random()
+        if r < 0.35:
+            acts.append(dict(op='order_value', id=sid, amt=rng.choice([-1e7, -2000, -5000]), style='mkt'))
+        elif r < 0.6:
+            acts.append(dict(op='order_target_value', id=sid, amt=rng.choice([100, 1000, 0]), style='mkt'))
+        elif r < 0.8:
+            acts.append(dict(op='order_target_percent', id=sid, amt=rng.choice([0, 0.0001, 0.01]), style='mkt'))
+        else:
+            acts.append(dict(op='order_shares', id=sid, amt=rng.choice([-150, -250, -99999, -50]), style='mkt'))
+        script['%d|handle_bar|0' % d] = acts
     scn['script'] = script
     scn['start_i'], scn['end_i'] = 1, nd - 2
     return scn
